@@ -1437,32 +1437,33 @@ impl Context {
                             }
                             BinaryOpcode::Compare => Ok(zero),
                             BinaryOpcode::Mod => {
+                                // `modulo` is `rem_euclid`, i.e.
+                                //   a mod b = a - b * div_euclid(a, b)
+                                // with div_euclid piecewise constant, so the
+                                // derivative is d_a - d_b * div_euclid(a, b).
+                                //
+                                // div_euclid(a, b) is trunc(a / b), adjusted
+                                // by one (away from the sign of b) if the
+                                // truncated remainder is negative, i.e. if
+                                // a < 0 and the remainder is nonzero.
                                 let e = self.div(v_lhs, v_rhs).unwrap();
-                                let q = self.floor(e).unwrap();
+                                let e_neg = self.less_than(e, zero).unwrap();
+                                let e_ceil = self.ceil(e).unwrap();
+                                let e_floor = self.floor(e).unwrap();
+                                let q = self
+                                    .if_nonzero_else(e_neg, e_ceil, e_floor)
+                                    .unwrap();
 
-                                // XXX
-                                // (we don't actually have %, so hack it from
-                                // `modulo`, which is actually `rem_euclid`)
-                                // ???
-                                let m = self.modulo(q, v_rhs).unwrap();
-                                let cond = self.less_than(q, zero).unwrap();
-                                let offset = self
-                                    .if_nonzero_else(cond, v_rhs, zero)
+                                let a_neg = self.less_than(v_lhs, zero).unwrap();
+                                let adjust = self.and(a_neg, n).unwrap();
+                                let b_pos = self.less_than(zero, v_rhs).unwrap();
+                                let step = self
+                                    .if_nonzero_else(b_pos, -1.0, 1.0)
                                     .unwrap();
-                                let m = self.sub(m, offset).unwrap();
-
-                                // Torn from the div_euclid implementation
-                                let outer = self.less_than(m, zero).unwrap();
-                                let inner =
-                                    self.less_than(zero, v_rhs).unwrap();
-                                let qa = self.sub(q, 1.0).unwrap();
-                                let qb = self.add(q, 1.0).unwrap();
-                                let inner = self
-                                    .if_nonzero_else(inner, qa, qb)
+                                let step = self
+                                    .if_nonzero_else(adjust, step, zero)
                                     .unwrap();
-                                let e = self
-                                    .if_nonzero_else(outer, inner, q)
-                                    .unwrap();
+                                let e = self.add(q, step).unwrap();
 
                                 let v = self.mul(d_rhs, e).unwrap();
                                 self.sub(d_lhs, v)
